@@ -583,6 +583,33 @@ func (fr *Frame) lookupVar(name string, at *ssa.BasicBlock, st State, phiOverrid
 			return fr.t.loadFrom(fr, nil, fr.freeVars[i], pt, st), pt, true
 		}
 	}
+	// "name@N": the loop-carried variable of loop ordinal N (e.g. the outer rangeindex inside an inner loop)
+	if i := strings.LastIndex(name, "@"); i > 0 {
+		var n int
+		if _, err := fmt.Sscanf(name[i+1:], "%d", &n); err == nil {
+			for h, lr := range fr.loops {
+				if lr.ordinal != n {
+					continue
+				}
+				for _, in := range h.Instrs {
+					phi, ok := in.(*ssa.Phi)
+					if !ok {
+						break
+					}
+					if phi.Comment == name[:i] {
+						if h == at && phiOverride != nil {
+							if v, ok := phiOverride[phi]; ok {
+								return v, phi.Type(), true
+							}
+						}
+						if v, ok := fr.vals[phi]; ok {
+							return v, phi.Type(), true
+						}
+					}
+				}
+			}
+		}
+	}
 	// phis at this block carrying that variable
 	if at != nil {
 		for _, in := range at.Instrs {
